@@ -2898,10 +2898,10 @@ protected:
             auto const  pos = boost::lexical_cast< size_t>( valCopy);
             if (pos >= mDestVar.size())
             {
-               if (pos == std::numeric_limits< size_t>::max())
+               if (pos >= std::numeric_limits< size_t>::max() / 2)
                   throw std::runtime_error( "position " + listVal
                      + " is outside the range of a vector");
-               mDestVar.resize( (pos + 1) * 1.5);
+               mDestVar.resize( (pos + 1) + (pos + 1) / 2);
             } // end if
             mDestVar[ pos] = !mResetFlags;
          } else
@@ -2909,10 +2909,10 @@ protected:
             auto const  pos = boost::lexical_cast< size_t>( listVal);
             if (pos >= mDestVar.size())
             {
-               if (pos == std::numeric_limits< size_t>::max())
+               if (pos >= std::numeric_limits< size_t>::max() / 2)
                   throw std::runtime_error( "position " + listVal
                      + " is outside the range of a vector");
-               mDestVar.resize( (pos + 1) * 1.5);
+               mDestVar.resize( (pos + 1) + (pos + 1) / 2);
             } // end if
             mDestVar[ pos] = !mResetFlags;
          } // end if
